@@ -47,7 +47,8 @@ EXPECT = [
     ("ResourceNonDelay rejects a resource", "C18"),
     ("IndicatorResourceIdle no longer removes", "C05"),
     ("start-time objectives ignore optional", "C14,C07"),
-    ("horizon of a solution is never negative", "C14"),
+    ("unloads and loads a NonConcurrentBuffer may be left unscheduled", "C05,C06,C09"),
+    ("OrderedTaskGroup orders the scheduled members", "C06,C03"),
 ]
 
 
